@@ -354,7 +354,12 @@ def gen_sessions(rng, tier, forms_by_arch, corpus=None):
             if rng.random() < 0.5:
                 ops.append(g.emit(emitter))
             else:
-                ops.append(g.other())
+                call = g.other()
+                if rng.random() < 0.3 and not call.startswith("cpool"):
+                    # one-shot state pending while a non-instruction call is made (a.k(k1) / set_inline_comment, then bind/align/...)
+                    call = "@%x,%s,%d %s" % (rng.choice((0, 0, 0x2000, 0x4000, 0x10, 0x1000)),
+                                              rng.choice(("-", "-", "16.%d" % rng.randrange(8), "6.1")), rng.choice((1, 1, 0)), call)
+                ops.append(call)
         if arch != "a64" and emitter == "asm" and rng.random() < 0.08:
             ops += g.short_jump_overflow()
             ops.append(g.emit(emitter))
@@ -367,15 +372,15 @@ def gen_sessions(rng, tier, forms_by_arch, corpus=None):
 # ------------------------------------------------------------------------------------------------------------------
 # answers of the harness
 
-ANS_RE = re.compile(r"^(\d+) H (\S+) T ([01]) O (\S+) (\S+) (\S+) ([01]) B (.*?) A (.*?) S (.*?) X (.*)$")
+ANS_RE = re.compile(r"^(\d+) H (\S+) T ([01]) O (\S+) (\S+) (\S+) ([01]) P (\S+) (\S+) (\S+) ([01]) B (.*?) A (.*?) S (.*?) X (.*)$")
 
 
 def parse_answer(a):
     m = ANS_RE.match(a)
     if not m:
         return None
-    d = {"ret": int(m.group(1)), "handled": m.group(2), "thrown": m.group(3), "os": m.group(4, 5, 6, 7), "B": m.group(8), "A": m.group(9),
-         "S": m.group(10), "X": m.group(11)}
+    d = {"ret": int(m.group(1)), "handled": m.group(2), "thrown": m.group(3), "os": m.group(4, 5, 6, 7), "pre": m.group(8, 9, 10, 11),
+         "B": m.group(12), "A": m.group(13), "S": m.group(14), "X": m.group(15)}
     for k in ("B", "A", "S"):
         d[k + "kv"] = dict(w.split("=", 1) for w in d[k].split())
     return d
@@ -418,30 +423,46 @@ def phys_ids(op_words):
     return out
 
 
-def monitor_line(sess_hdr, op, d):
+def opw(op):
+    """words of a call without the optional one-shot prefix `@opts,extra,comment`"""
     w = op.split()
+    return w[1:] if w and w[0].startswith("@") else w
+
+
+def pre_of(op):
+    w = op.split()
+    return w[0] if w and w[0].startswith("@") else None
+
+
+def monitor_line(sess_hdr, op, d):
+    w = opw(op)
     arch, emitter, handler = sess_hdr[1], sess_hdr[2], sess_hdr[3]
-    kind = "emit" if w[0] == "emit" else "holder" if w[0] == "newsec" else "finalize" if w[0] == "finalize" else "call"
+    kind = "emit" if w[0] == "emit" else "holder" if w[0] == "newsec" else "finalize" if w[0] == "finalize" else \
+        "bind" if w[0] == "bind" and emitter == "asm" else "call"
     refs, phys = [], []
     if w[0] == "emit":
         refs = label_refs(w, arch == "a64")
         if arch == "a64" and emitter == "asm":
             phys = phys_ids(w)
-    return "mon %s %d %s %d %s %s %s %s %s %s ; %s ; %s ; %s ; %s ; %s" % (
+    return "mon %s %d %s %d %s %s %s %s %s %s %s %s %s %s ; %s ; %s ; %s ; %s ; %s" % (
         kind, 1 if emitter == "asm" else 0, handler, d["ret"], d["handled"], d["thrown"], d["os"][0], d["os"][1], d["os"][2], d["os"][3],
-        d["B"], d["A"], d["S"], ",".join(map(str, refs)) or "-", ",".join("%d:%d" % p for p in phys) or "-")
+        d["pre"][0], d["pre"][1], d["pre"][2], d["pre"][3], d["B"], d["A"], d["S"], ",".join(map(str, refs)) or "-", ",".join("%d:%d" % p for p in phys) or "-")
 
 
 def model_line(sess_hdr, op, d):
     """the op as the model driver reads it: the encoder's outcome of an `emit` is taken from the implementation"""
-    w = op.split()
+    w = opw(op)
+    pre = pre_of(op)
+    if pre is not None:
+        o, x, c = pre[1:].split(",")
+        return "@%s,%d,%s %s" % (o, 0 if x == "-" else 1, c, model_line(sess_hdr, " ".join(w), d))
     if w[0] == "cpool":
         # the pool the harness builds: `count` distinct constants of one size, laid out in insertion order; alignment = the item size
         isz, cnt = int(w[2]), min(int(w[3]), 16)
         data = bytes((0xA0 + i + k) & 0xFF for i in range(cnt) for k in range(isz))
         return "cpool %s %d %s" % (w[1], isz if cnt else 0, data.hex() or "-")
     if w[0] != "emit":
-        return op
+        return " ".join(w)
     refs = label_refs(w, sess_hdr[1] == "a64")
     pre = "%s %d %s" % (w[2], 0 if w[3] == "-" else 1, w[4])
     head = "emit %s %s" % (",".join(map(str, refs)) or "-", pre)
@@ -463,9 +484,10 @@ def model_expect(d, unknown_code=False):
     a = d["Akv"]
     if unknown_code and d["ret"] != 0:
         return "E O %s %s %s %s sec=%s lab=%s bnd=%s rel=%s fix=%s cur=%s off=%s bh=%s" % (
-            d["os"][0], d["os"][1], d["os"][2], d["os"][3], a["sec"], a["lab"], a["bnd"], a["rel"], a["fix"], a["cur"], a["off"], a["bh"])
+            d["os"][0], "0" if d["os"][1] == "0" else "1", "0", d["os"][3], a["sec"], a["lab"], a["bnd"], a["rel"], a["fix"], a["cur"], a["off"], a["bh"])
+    # extra register: the model keeps "present / absent" only
     return "%d O %s %s %s %s sec=%s lab=%s bnd=%s rel=%s fix=%s cur=%s off=%s bh=%s" % (
-        d["ret"], d["os"][0], d["os"][1], d["os"][2], d["os"][3], a["sec"], a["lab"], a["bnd"], a["rel"], a["fix"], a["cur"], a["off"], a["bh"])
+        d["ret"], d["os"][0], "0" if d["os"][1] == "0" else "1", "0", d["os"][3], a["sec"], a["lab"], a["bnd"], a["rel"], a["fix"], a["cur"], a["off"], a["bh"])
 
 
 def model_got(m, unknown_code=False):
@@ -542,7 +564,7 @@ def judge(h, sessions, names):
     tainted = set()
     hdr = None
     for i, (op, a) in enumerate(zip(flat, impl)):
-        w = op.split()
+        w = opw(op)
         if w[0] == "new":
             hdr = w
             if w[2] == "asm":
@@ -604,7 +626,7 @@ def judge(h, sessions, names):
 
 
 def bad_key(names, sess_hdr, op, d, verdict):
-    w = op.split()
+    w = opw(op)
     clause = verdict.split()[1] if verdict.startswith("BAD ") else verdict
     opname = w[0]
     if opname == "cpool" and clause == "atomic" and errname(names, d["ret"]) == "InvalidDisplacement":
@@ -687,6 +709,8 @@ def run(res):
         ["new x64 asm thr 1", "label", "emit %d 0 - 0 r6.0 ml7,0,0,0,0,0,8,0,0,0,0" % mov],
         ["new a64 asm rec 0", "emit %d 0 - 0 v11.0.3.-1 v11.1.3.-1 v11.40.3.-1" % add3, "emit %d 0 - 0 r6.1 r6.40" % cmp2],
         ["new a64 asm thr 0", "embed 01", "align 0 8", "align 1 8"],
+        ["new x64 asm thr 1", "label", "@0,-,1 bind 0", "@2000,16.2,1 bind 0", "@0,-,1 bind 9", "@0,-,1 align 0 3", "@10,-,1 elabel 7 4", "@0,6.1,1 section foreign"],
+        ["new a64 asm rec 0", "label", "@0,-,1 bind 3", "@0,-,1 bind 0", "@0,-,1 bind 0", "@0,-,1 embed 01", "@0,-,1 align 0 8"],
         ["new a64 bld rec 0", "label", "bind 5", "bind 0", "bind 0"],
         ["new x64 asm rec 1", "label", "label", "embed 01", "bind 0", "cpool 0 8 2", "cpool 7 8 2", "cpool 1 8 2", "cpool 1 4 1"],
         ["new a64 bld thr 0", "label", "label", "embed 01", "bind 0", "cpool 0 8 2", "cpool 1 8 2"],
@@ -727,7 +751,7 @@ def run(res):
     hdr = None
     distinct = set()
     for op, a in zip(flat, impl):
-        w = op.split()
+        w = opw(op)
         if w[0] == "new":
             hdr = w
             continue
